@@ -10,6 +10,20 @@ MCActorOf == [r \in MCReps |-> r]
 
 View == coreView
 
+\* ---- scenario scripts (INIT ScriptInit) ------------------------------------------
+CONSTANT ScriptName
+W(v) == [c |-> "write", v |-> v]
+Script ==
+  CASE ScriptName = "none" -> <<>>
+    \* four replicas write concurrently: value clocks over four distinct actors (read context = join of four clocks)
+    [] ScriptName = "four_writers" ->
+         << <<"gen", 1, W(1)>>, <<"gen", 2, W(1)>>, <<"gen", 3, W(1)>>, <<"gen", 4, W(1)>> >>
+    \* one write seen by all four replicas, then free play: value clocks that share their first actor and differ in the
+    \* middle ({1,2,4} / {1,3,4}-shaped siblings) are reachable with three more writes
+    [] ScriptName = "seen_by_all" ->
+         << <<"gen", 1, W(1)>>, <<"dlv", 2, 1>>, <<"dlv", 3, 1>>, <<"dlv", 4, 1>> >>
+ScriptInit == InitAfter(Script)
+
 \* the Vec as a sequence of <<clock, value>> (compared as a bag by the harness)
 ProjB(s) == [vals |-> [i \in 1..Len(s.vals) |-> <<s.vals[i].c, s.vals[i].v>>]]
 
